@@ -83,6 +83,7 @@ fn expr(e: &Expr) -> R<String> {
     Ok(match e {
         Expr::Lit(l) => match &l.lit {
             Lit::Bool(b) => b.value.to_string(),
+            Lit::Char(c) if c.value().is_ascii() && !c.value().is_ascii_control() => if c.value() == '"' { "\"\"\"\"%char".to_string() } else { format!("\"{}\"%char", c.value()) },
             _ => return Err("literal outside subset".into()),
         },
         Expr::Path(p) => path_name(&p.path),
@@ -106,6 +107,20 @@ fn expr(e: &Expr) -> R<String> {
             format!("({} {})", expr(&c.func)?, a.join(" "))
         }
         Expr::MethodCall(m) if m.method == "token_type" && m.args.is_empty() => format!("(token_type {})", expr(&m.receiver)?),
+        // strings are lists of characters: `s.contains(c)`, `s.matches(c).count()`, and `a.cmp(&b)` on naturals
+        Expr::MethodCall(m) if m.method == "contains" && m.args.len() == 1 && matches!(&m.args[0], Expr::Lit(ExprLit { lit: Lit::Char(_), .. })) =>
+            format!("(str_contains {} {})", expr(&m.receiver)?, expr(&m.args[0])?),
+        Expr::MethodCall(m) if m.method == "count" && m.args.is_empty() && matches!(&*m.receiver, Expr::MethodCall(r) if r.method == "matches" && r.args.len() == 1 && matches!(&r.args[0], Expr::Lit(ExprLit { lit: Lit::Char(_), .. }))) => {
+            if let Expr::MethodCall(r) = &*m.receiver { format!("(str_count {} {})", expr(&r.receiver)?, expr(&r.args[0])?) } else { unreachable!() }
+        }
+        Expr::MethodCall(m) if m.method == "cmp" && m.args.len() == 1 => format!("(nat_cmp {} {})", expr(&m.receiver)?, expr(&m.args[0])?),
+        // `ctx.config().field`: the configuration fields a kernel reads are its parameters
+        Expr::Field(f) if matches!(&*f.base, Expr::MethodCall(c) if c.method == "config" && c.args.is_empty()) => match &f.member {
+            Member::Named(id) => id.to_string(),
+            _ => return Err("tuple field outside subset".into()),
+        },
+        // a panic is a distinguished value of the mirrored result type (FmAst.rs_unreachable); the theorems show it is never returned
+        Expr::Macro(m) if m.mac.path.is_ident("unreachable") => "rs_unreachable".to_string(),
         // accessors mirrored as functions of FmAst.v; `.iter().next()` is the head of a list
         Expr::MethodCall(m) if m.args.is_empty() && ["prefix", "variables", "lhs"].contains(&m.method.to_string().as_str()) => format!("({} {})", m.method, expr(&m.receiver)?),
         Expr::MethodCall(m) if m.args.is_empty() && m.method == "iter" => expr(&m.receiver)?,
@@ -222,6 +237,12 @@ const KERNELS: &[Kernel] = &[
             ("check_stmt_requires_semicolon", "Definition check_stmt_requires_semicolon (stmt : Stmt) (next_stmt : option (Stmt * option TokenReference)) : bool :="),
         ],
         module: "SemiRule",
+    },
+    Kernel {
+        file: "src/formatters/general.rs",
+        name: "quote_choice",
+        funcs: &[("get_quote_to_use", "Definition get_quote_to_use (quote_style : QuoteStyle) (literal : list Ascii.ascii) : StringLiteralQuoteType :=")],
+        module: "QuoteChoice",
     },
 ];
 
@@ -459,7 +480,7 @@ fn main() {
             let src = std::fs::read_to_string(&path).map_err(|e| format!("{}: {}", path, e))?;
             let f = parse_file(&src).map_err(|e| format!("{}: {}", path, e))?;
             let mut text = format!(
-                "(* GENERATED by rs2v from {} :: {} -- do not edit; regenerated on every run *)\nFrom Coq Require Import List.\nFrom SV Require Import FmAst.\n",
+                "(* GENERATED by rs2v from {} :: {} -- do not edit; regenerated on every run *)\nFrom Coq Require Import List Ascii.\nFrom SV Require Import FmAst.\n",
                 k.file,
                 k.funcs.iter().map(|f| f.0).collect::<Vec<_>>().join(", ")
             );
